@@ -96,12 +96,23 @@ func newWSHandler(host string, dial dialFunc, conn gkm.Gauge) http.Handler {
 		errc := make(chan error, 2)
 		cp := func(dst io.Writer, src io.Reader) {
 			_, err := io.Copy(dst, src)
+			if err == nil {
+				// pass the end of the stream on and keep the other direction
+				// open, or end the tunnel if dst cannot be half-closed
+				if cw, ok := dst.(interface{ CloseWrite() error }); !ok || cw.CloseWrite() != nil {
+					err = io.EOF
+				}
+			}
 			errc <- err
 		}
 
 		go cp(out, in)
 		go cp(in, out)
 		err = <-errc
+		if err == nil {
+			// let the opposite direction deliver what is still on its way
+			<-errc
+		}
 		if err != nil && err != io.EOF {
 			log.Printf("[INFO] WS error for %s. %s", r.URL, err)
 		}
